@@ -40,7 +40,12 @@ def scenario(chk, i):
         name, mk = [("delivery", tokens.c03_job), ("start_stack", tokens.c05_job),
                     ("reject", tokens.c07_job), ("stream_edits", tokens.c08_job),
                     ("buffers", tokens.c11_job), ("eof_chain", tokens.c10_job)][kind]
-        job = mk(chk, rng, i)
+        if name == "start_stack" and (i // 7) % 2 == 0:
+            # the deep variant: 30-130 pushes, so the start-condition stack is reallocated
+            job = mk(chk, rng, 7 * (i // 7) + 3)
+            name = "start_stack_deep"
+        else:
+            job = mk(chk, rng, i)
     case = job["case"]
     case["opts"]["ledger"] = True
     case.setdefault("driver", {})
@@ -86,6 +91,8 @@ def alloc_worker(args):
     bev = events(base.log)
     out["k"] = n
     feat("scenario:" + name)
+    if sum(1 for e in bev if e.startswith("P ")) > 25:
+        feat("stack_regrown_in_undisturbed_run")
     feat("flavour:" + cfg["flavour"])
     for k in range(1, n + 1):
         ro = runner.run_scanner(b, ci, wd, tag="k%d" % k, sched=inp.get("sched"), alloc_fail_at=k,
@@ -359,7 +366,8 @@ def run(pid, tier):
     chk.sample({"scenarios": na, "allocation_requests": ks[:10]})
     for k in ("fatal_nomem", "eintr_identical", "eio_reported", "path:stdio_fread", "path:stdio_getc",
               "path:read2", "path:c99_fread", "scenario:tables_load", "init_error_returns_ok",
-              "scenario:buffers", "scenario:reject", "scenario:start_stack"):
+              "scenario:buffers", "scenario:reject", "scenario:start_stack", "scenario:start_stack_deep",
+              "stack_regrown_in_undisturbed_run"):
         chk.require(k)
     return chk
 
